@@ -49,6 +49,7 @@ func init() {
 		key := rsaKey(2048, 0)
 		cert := simpleCert(key, "store signer", 7)
 		var obs []string
+		kept := map[string]efivar.Marshallable{}
 		for _, op := range strings.Split(a[2], "&") {
 			f := strings.Split(op, "^")
 			g := parseGuidArg(f[2])
@@ -77,6 +78,30 @@ func init() {
 				}
 				if err := e.WriteSignedUpdate(v, &db, key, sc); err != nil {
 					obs = append(obs, "!signed")
+				} else {
+					obs = append(obs, "-")
+				}
+			case "U": // a signed update made by the caller, written through WriteVar, and kept
+				db := parseDbArg(f[4])
+				_, m, err := signature.SignEFIVariable(v, &db, key, cert)
+				if err != nil {
+					obs = append(obs, "!sign")
+					break
+				}
+				kept[v.Name] = m
+				if err := e.WriteVar(v, m); err != nil {
+					obs = append(obs, "!write")
+				} else {
+					obs = append(obs, "-")
+				}
+			case "T": // the update kept from an earlier U is written once more (re-applied after a roll-back)
+				m := kept[v.Name]
+				if m == nil {
+					obs = append(obs, "!nothing-kept")
+					break
+				}
+				if err := e.WriteVar(v, m); err != nil {
+					obs = append(obs, "!write")
 				} else {
 					obs = append(obs, "-")
 				}
@@ -120,7 +145,7 @@ func init() {
 		return []string{strings.Join(obs, "&")}
 	}
 	checkers["C12"] = checker{
-		rule: "random histories on testfs.NewTestFS().Open(): WriteVar with raw values and databases, WriteSignedUpdate (RSA-2048) and reads (GetVarWithAttributes with a recording decoder; GetPK/GetKEK/Getdb/Getdbx) over PK, KEK, db, dbx and ordinary variables, values that grow, shrink (to empty) and repeat, interleaved across variables, from empty and pre-populated stores; run_store (extracted) replays the history on the model store and checks every read; non-trivial = some variable is written at least twice with a shorter value after a longer one and then read; distinct by history hash",
+		rule: "random histories on testfs.NewTestFS().Open(): WriteVar with raw values and databases, WriteSignedUpdate (RSA-2048), signed updates made by the caller and written through WriteVar, the same update object written again later, and reads (GetVarWithAttributes with a recording decoder; GetPK/GetKEK/Getdb/Getdbx) over PK, KEK, db, dbx and ordinary variables, values that grow, shrink (to empty) and repeat, interleaved across variables, from empty and pre-populated stores; run_store (extracted) replays the history on the model store and checks every read; non-trivial = some variable is written at least twice with a shorter value after a longer one and then read; distinct by history hash",
 		run:  runC12,
 	}
 }
@@ -205,6 +230,7 @@ func runC12(c *Ctx) {
 		nops := 2 + rng.Intn(maxOps)
 		implOpsL, modelOps := []string{}, []string{}
 		lastLen := map[string]int{}
+		keptVal := map[string][]byte{}
 		shrunk, readAfterShrink := map[string]bool{}, false
 		for j := 0; j < nops; j++ {
 			v := pick(rng, vars)
@@ -228,6 +254,12 @@ func runC12(c *Ctx) {
 			}
 			at := v.attrs
 			var value []byte
+			if kv, ok := keptVal[v.name]; ok && v.secure && rng.Intn(4) == 0 {
+				// the signed update written earlier is written again, the very same object
+				implOpsL = append(implOpsL, fmt.Sprintf("T^%s^%s^%d^", nm, ga, at))
+				modelOps = append(modelOps, fmt.Sprintf("W^%s^%s^%d^%s", nm, ga, at, hx(kv)))
+				continue
+			}
 			if v.secure {
 				db := genDb()
 				if rng.Intn(5) == 0 {
@@ -248,7 +280,12 @@ func runC12(c *Ctx) {
 					if sc == fatCert {
 						fat = "^fat"
 					}
-					implOpsL = append(implOpsL, fmt.Sprintf("S^%s^%s^%d^%s%s", nm, ga, at, dbArg(db), fat))
+					if fat == "" && rng.Intn(3) == 0 {
+						implOpsL = append(implOpsL, fmt.Sprintf("U^%s^%s^%d^%s", nm, ga, at, dbArg(db)))
+						keptVal[v.name] = value
+					} else {
+						implOpsL = append(implOpsL, fmt.Sprintf("S^%s^%s^%d^%s%s", nm, ga, at, dbArg(db), fat))
+					}
 				} else {
 					value = db.Bytes()
 					implOpsL = append(implOpsL, fmt.Sprintf("D^%s^%s^%d^%s", nm, ga, at, dbArg(db)))
